@@ -50,10 +50,8 @@ def _hav_a(ctx, lat1, lon1, lat2, lon2):
 
 
 def _hav_hints(ctx, p1, p2, l1, l2):
-    ax.half_angle(ctx, p1 - p2)
-    ax.half_angle(ctx, l1 - l2)
-    ax.cos_diff(ctx, p1, p2)
-    ax.cos_diff(ctx, l1, l2)
+    return [ax.half_angle(ctx, p1 - p2), ax.half_angle(ctx, l1 - l2),
+            ax.cos_diff(ctx, p1, p2), ax.cos_diff(ctx, l1, l2)]
 
 
 @contract(P, "geometric.latlon2pos/on-sphere-of-radius-geo_scale", params={"temporal": [False, True]},
@@ -91,21 +89,37 @@ def chord_haversine(ctx):
     lat1, lat2 = ctx.real("lat1", lo=-90, hi=90), ctx.real("lat2", lo=-90, hi=90)
     lon1, lon2 = ctx.real("lon1", lo=-360, hi=360), ctx.real("lon2", lo=-360, hi=360)
     R = ctx.real("R", pos=True)
-    ctx.require(ctx.gt(R, 0))
+    Rpos = ctx.require(ctx.gt(R, 0))
     p = geo.latlon2pos([[lat1, lat2], [lon1, lon2]], radius=R)
     d = p[:, 0] - p[:, 1]
     chord2 = d[0] * d[0] + d[1] * d[1] + d[2] * d[2]
     a, ang = _hav_a(ctx, lat1, lon1, lat2, lon2)
-    _hav_hints(ctx, *ang)
-    ctx.ensure("chord^2=4R^2.a", ctx.eq(chord2, 4 * R * R * a))
-    ctx.ensure("a-in-[0,1]", ctx.And(ctx.ge(a, 0), ctx.le(a, 1)))
+    hh = _hav_hints(ctx, *ang)
+    L1 = ctx.lemma("chord^2=4R^2.a", ctx.eq(chord2, 4 * R * R * a), using=hh)
+    L2 = ctx.lemma("a-in-[0,1]", ctx.And(ctx.ge(a, 0), ctx.le(a, 1)), using=hh)
     # great-circle angle of the variogram estimator, zeta = 2 atan2(sqrt a, sqrt(1-a)) (radians);
     # its chord on the sphere of radius R, as used by cov_yadrenko / fit_variogram:
+    ch, L5 = _chord_of_zeta(ctx, a, R, L2, Rpos)
+    ctx.ensure("chordal(R.zeta)^2=chord^2", ctx.eq(ch * ch, chord2), using=[L1, L2, L5, Rpos],
+               generalize=[chord2, a])
+    ctx.ensure("chordal>=0", ctx.ge(ch, 0), using=[L2, L5, Rpos], generalize=[a])
+
+
+def _chord_of_zeta(ctx, a, R, La, Rpos):
+    """chord = great_circle_to_chordal(R.zeta, R) for zeta = 2 atan2(sqrt a, sqrt(1-a)), with the
+    lemma chain  x^2+y^2 = 1,  rho = 1,  sin(atan2) = sqrt a,  chord = 2 R sqrt a"""
     m = ctx.m
-    zeta = 2 * m.arctan2(m.sqrt(a), m.sqrt(1 - a))
+    ys, xs = m.sqrt(a), m.sqrt(1 - a)
+    L1 = ctx.lemma("sqrt(1-a)^2+sqrt(a)^2=1", ctx.eq(xs * xs + ys * ys, 1), using=[La])
+    rho = m.sqrt(xs * xs + ys * ys)
+    L2 = ctx.lemma("rho=1", ctx.eq(rho, 1), using=[L1])
+    r = m.arctan2(ys, xs)
+    L3 = ctx.lemma("sin(atan2(sqrt a,sqrt(1-a)))=sqrt a", ctx.eq(m.sin(r), ys), using=[L1, L2])
+    zeta = 2 * r
+    L4 = ctx.lemma("R.zeta/(2R)=zeta/2", ctx.eq(R * zeta / (2 * R), r), using=[Rpos])
     ch = geo.great_circle_to_chordal(R * zeta, R)
-    ctx.ensure("chordal(R.zeta)^2=chord^2", ctx.eq(ch * ch, chord2))
-    ctx.ensure("chordal>=0", ctx.ge(ch, 0))
+    L5 = ctx.lemma("chordal(R.zeta)=2R.sqrt(a)", ctx.eq(ch, 2 * R * ys), using=[L3, L4])
+    return ch, L5
 
 
 @contract(P, "geometric.chordal_to_great_circle/inverse-of-great_circle_to_chordal",
@@ -223,14 +237,22 @@ def yadrenko(ctx, temporal):
     ctx.ensure("iso-shape", ctx.shape_eq(iso, (3, 2)))
     d = iso[:, 0] - iso[:, 1]
     m = ctx.m
-    dist = m.sqrt(d[0] * d[0] + d[1] * d[1] + d[2] * d[2])
+    D2 = d[0] * d[0] + d[1] * d[1] + d[2] * d[2]
+    dist = m.sqrt(D2)
     a, ang = _hav_a(ctx, lat1, lon1, lat2, lon2)
-    _hav_hints(ctx, *ang)
-    zeta = 2 * m.arctan2(m.sqrt(a), m.sqrt(1 - a))
+    hh = _hav_hints(ctx, *ang)
     R = mod.geo_scale
-    ctx.ensure("cov", ctx.eq(mod.covariance(dist), mod.cov_yadrenko(R * zeta)))
-    ctx.ensure("vario", ctx.eq(mod.variogram(dist), mod.vario_yadrenko(R * zeta)))
-    ctx.ensure("cor", ctx.eq(mod.correlation(dist), mod.cor_yadrenko(R * zeta)))
+    Rpos = ctx.gt(R, 0)
+    L1 = ctx.lemma("dist^2=4R^2.a", ctx.eq(D2, 4 * R * R * a), using=hh)
+    L2 = ctx.lemma("a-in-[0,1]", ctx.And(ctx.ge(a, 0), ctx.le(a, 1)), using=hh)
+    Rp = ctx.lemma("geo_scale>0", Rpos)
+    ch, L5 = _chord_of_zeta(ctx, a, R, L2, Rp)
+    L6 = ctx.lemma("dist=chordal(R.zeta)>=0", ctx.And(ctx.eq(dist, ch), ctx.ge(ch, 0)),
+                   using=[L1, L2, L5, Rp], generalize=[D2, a])
+    zeta = 2 * m.arctan2(m.sqrt(a), m.sqrt(1 - a))
+    ctx.ensure("cov", ctx.eq(mod.covariance(dist), mod.cov_yadrenko(R * zeta)), using=[L6])
+    ctx.ensure("vario", ctx.eq(mod.variogram(dist), mod.vario_yadrenko(R * zeta)), using=[L6])
+    ctx.ensure("cor", ctx.eq(mod.correlation(dist), mod.cor_yadrenko(R * zeta)), using=[L6])
 
 
 @contract(P, "CovModel.isometrize[temporal]/time-axis-only-scaled",
